@@ -23,10 +23,26 @@ def mass_table():
     return gen_dir()
 
 
+def radius_table():
+    import mofun.detect_bonds as db
+    importlib.reload(db)
+    cases = " [] ".join('e = "%s" -> %d' % (el, round(r * 100)) for el, r in db.COVALENT_RADII.items())
+    text = ("---- MODULE RadiusTable ----\n\\* generated from /repo/mofun/detect_bonds.py (radii in 0.01 Angstrom)\n"
+            "Radius(e) == CASE " + cases + "\n"
+            "RadiusElements == <<" + ", ".join('"%s"' % e for e in db.COVALENT_RADII) + ">>\n"
+            "NonMetals == {" + ", ".join('"%s"' % e for e in db.NON_METALS) + "}\n====\n")
+    with open(os.path.join(gen_dir(), "RadiusTable.tla"), "w") as fh:
+        fh.write(text)
+    return gen_dir()
+
+
 def all_tables():
     mass_table()
+    radius_table()
     return gen_dir()
 
 
 if __name__ == "__main__":
     print(all_tables())
+
+
